@@ -110,6 +110,18 @@ class Gen:
             d["suit-digest-bytes"] = self.hexs(32)
         return d
 
+    def supplied(self, sizes):
+        """a value supplied in the description for a digest that the tool recalculates: plain hex, or one of the extended forms"""
+        form = self.r.choice(["hex", "hex", "hex", "raw", "file", "file_direct"])
+        if form == "hex":
+            return self.hexs(self.r.choice(sizes))
+        self.features.add("supplied-digest:" + form)
+        if form == "raw":
+            return {"raw": self.hexs(self.r.choice([32, 32, 0, 4]))}
+        if form == "file":
+            return {"file": self.new_file(self.nbytes(self.r.choice([0, 1, 40])))}
+        return {"file_direct": self.new_file(self.nbytes(self.r.choice([32, 16, 64])), "d")}
+
     def uuid(self):
         form = self.r.choice(["name", "ns", "raw"])
         self.features.add("uuid:" + form)
@@ -329,7 +341,7 @@ class Gen:
             elif mode in ("severed", "digest-only"):
                 d = {"suit-digest-algorithm-id": self.alg()}
                 if self.p(0.6):
-                    d["suit-digest-bytes"] = self.hexs(self.r.choice([0, 32, 4]))
+                    d["suit-digest-bytes"] = self.supplied([0, 32, 4])
                 m[k] = d
         tmode = severed.get("suit-text")
         if tmode == "inline":
@@ -338,7 +350,7 @@ class Gen:
         elif tmode in ("severed", "digest-only"):
             d = {"suit-digest-algorithm-id": self.alg()}
             if self.p(0.6):
-                d["suit-digest-bytes"] = self.hexs(self.r.choice([0, 32]))
+                d["suit-digest-bytes"] = self.supplied([0, 32])
             m["suit-text"] = d
         # shuffle the order of manifest members sometimes (the encoder keeps description order)
         if self.p(0.3):
@@ -363,7 +375,7 @@ class Gen:
             m["suit-reference-uri"] = "u" * pad_manifest_to
         auth = {"SuitDigest": {"suit-digest-algorithm-id": self.alg()}}
         if self.p(0.5):
-            auth["SuitDigest"]["suit-digest-bytes"] = self.hexs(self.r.choice([0, 32, 4]))
+            auth["SuitDigest"]["suit-digest-bytes"] = self.supplied([0, 32, 4])
         for i in range(self.r.choice([0, 0, 0, 1, 2])):
             auth[f"SuitAuthentication{i}"] = self.auth_block()
         members = [("suit-authentication-wrapper", auth), ("suit-manifest", m)]
